@@ -1,5 +1,5 @@
 (* C08 — the property's SECOND sentence, "getctype(T, x) names the type x builds over T", for the declarator
-   texts x = "*", "[n]", "[]" and "(*)(args)":  ffi_getctype (ffi_obj.c:623) applied to T and that text returns
+   texts x = "*", "[n]", "[]" and "( * )(args)":  ffi_getctype (ffi_obj.c:623) applied to T and that text returns
    exactly ct_name of the pointer / array / function-pointer type over T as the backend's constructors
    (new_pointer_type, new_array_type, fb_build_name; Model.cname) build it — for EVERY ctype T, including the
    parenthesis that an array T needs around '*'.  Composed with Proofs5.reparse_keyword_types (C parser model of
@@ -45,7 +45,7 @@ Proof. intros. rewrite getctype_brackets. reflexivity. Qed.
 Lemma getctype_open_array : forall T, getctype_c T [c_lbr; c_rbr] = fst (cname (CArr T None)).
 Proof. intros. apply (getctype_brackets T []). Qed.
 
-(* x = "(*)(args)": the text fb_build_name puts at the position of the result type *)
+(* x = "( * )(args)": the text fb_build_name puts at the position of the result type *)
 Definition func_suffix (args : list ctype) (ell : bool) : str :=
   s2l "(*)" ++ [c_lpar] ++ sep_commas (map (fun a => fst (cname a)) args ++ if ell then [s2l "..."] else []) ++ [c_rpar].
 
